@@ -236,6 +236,7 @@ func (s *c11Server) closeConns() {
 	for c := range s.conns {
 		s.log.add(c11rawEvent{k: "pclose", port: c11PortOf(c.RemoteAddr()), id: -1})
 		c.Close()
+		delete(s.conns, c) // its serve goroutine may not have noticed yet when the next command comes
 	}
 }
 
@@ -332,7 +333,7 @@ func (s *c11Server) serve(c net.Conn) {
 					return
 				case "rst":
 					// let the reply reach the client before the reset discards it
-					time.Sleep(20 * time.Millisecond)
+					time.Sleep(80 * time.Millisecond)
 					s.log.add(c11rawEvent{k: "pclose", port: port, id: -1})
 					if tc, ok := c.(*net.TCPConn); ok {
 						tc.SetLinger(0)
@@ -761,7 +762,13 @@ func c11Run(c *c11Case) []Failure {
 	for _, sig := range sigs {
 		if repro[sig] >= 3 {
 			c.Repro = repro[sig]
-			fs = append(fs, Failure{Sig: sig, Desc: fmt.Sprintf("server closes by %q after %d replies, next calls %d us after the observed close: %s (reproduced in %d re-runs)", c.Mode, c.Burst*c.Seq*c11Halves(c), c.DelayUs, first[sig], repro[sig])})
+			what := fmt.Sprintf("server closes by %q after %d replies, next calls %d us after the observed close", c.Mode, c.Burst*c.Seq*c11Halves(c), c.DelayUs)
+			if c.Mode == "held" {
+				what = fmt.Sprintf("send goroutine held just before its write, server closes the connection, %d further call(s) %d us after the observed close, then the goroutine is released", c.Burst, c.DelayUs)
+			} else if c.PauseUs > 0 {
+				what += fmt.Sprintf(", %d us idle period inside each round", c.PauseUs)
+			}
+			fs = append(fs, Failure{Sig: sig, Desc: fmt.Sprintf("%s: %s (reproduced in %d re-runs)", what, first[sig], repro[sig])})
 		}
 	}
 	if len(fs) == 0 {
@@ -817,7 +824,7 @@ func c11Gen(tier string, rng *rand.Rand) []c11Case {
 	var cs []c11Case
 	reps := 1
 	if tier == "thorough" {
-		reps = 8
+		reps = 30
 	}
 	for r := 0; r < reps; r++ {
 		for _, md := range modes {
